@@ -357,6 +357,10 @@ func rulesC16(e *Engine, r *Report) {
 		r.Min("R16.2", "instances of the stop-aware receive helper", nh, 1)
 	}
 
+	// ---------------------------------------------------------------- R16.9
+	r.Rule("R16.9", "local worker pools cannot strand their producer: where a function feeds a channel it created with plain sends to goroutines it started (hash → hashFiles), every worker returns only after it saw the channel closed (it keeps draining, also under an immediate stop), the producer closes the channel on every path that leaves after workers were started, waits for them only after the close, and never sends after the close")
+	e.checkWorkerPools(r, "R16.9", 1, "client")
+
 	// ---------------------------------------------------------------- R16.3
 	r.Rule("R16.3", "every stage function releases its WaitGroup: the first deferred call of each function started through start() is wg.Done() on its own parameter")
 	for _, st := range stages {
